@@ -83,6 +83,16 @@ func (s *Server) HandlePutService(w http.ResponseWriter, r *http.Request) {
 
 	service.Metadata = *metadata
 
+	// If this service name is already registered under a different entity ID,
+	// that entity ID must stop being served once the service is overwritten.
+	previous := Service{}
+	previousErr := s.Store.Get(fmt.Sprintf("/services/%s", r.PathValue("id")), &previous)
+	if previousErr != nil && previousErr != ErrNotFound {
+		s.logger.Printf("ERROR: %s", previousErr)
+		http.Error(w, http.StatusText(http.StatusInternalServerError), http.StatusInternalServerError)
+		return
+	}
+
 	err = s.Store.Put(fmt.Sprintf("/services/%s", r.PathValue("id")), &service)
 	if err != nil {
 		s.logger.Printf("ERROR: %s", err)
@@ -91,6 +101,9 @@ func (s *Server) HandlePutService(w http.ResponseWriter, r *http.Request) {
 	}
 
 	s.idpConfigMu.Lock()
+	if previousErr == nil && previous.Metadata.EntityID != service.Metadata.EntityID {
+		delete(s.serviceProviders, previous.Metadata.EntityID)
+	}
 	s.serviceProviders[service.Metadata.EntityID] = &service.Metadata
 	s.idpConfigMu.Unlock()
 
